@@ -1,0 +1,80 @@
+//go:build verif
+
+package main
+
+// Verification driver for property C12 (build tag verif only): serves mergeMeta — the metadata-only update run — over a
+// JSON line protocol when ZOEKT_VERIF_DRIVER=c12, so that the harness can run it under strace (kill points, failing
+// system calls) and under a file-size limit (failing writes).  Not part of the normal build.
+
+import (
+	"bufio"
+	"encoding/json"
+	"fmt"
+	"io"
+	"log"
+	"os"
+	"os/signal"
+	"runtime"
+	"syscall"
+
+	"github.com/sourcegraph/zoekt"
+	"github.com/sourcegraph/zoekt/index"
+)
+
+type verifC12Req struct {
+	Dir        string
+	RepoName   string
+	RepoID     uint32
+	Version    string            // version of branch HEAD (must equal the indexed one: Branches are immutable)
+	RawConfig  map[string]string // the mutable metadata to merge
+	FsizeLimit uint64            // >0: RLIMIT_FSIZE while mergeMeta runs (writes beyond it fail with EFBIG)
+}
+
+func init() {
+	if os.Getenv("ZOEKT_VERIF_DRIVER") != "c12" {
+		return
+	}
+	runtime.LockOSThread() // strace counts system calls per thread
+	signal.Ignore(syscall.SIGXFSZ)
+	log.SetOutput(io.Discard)
+	out := bufio.NewWriter(os.Stdout)
+	fmt.Fprintf(out, "{\"pid\":%d}\n", os.Getpid())
+	out.Flush()
+	in := bufio.NewReaderSize(os.Stdin, 1<<20)
+	for {
+		line, rerr := in.ReadBytes('\n')
+		if len(line) > 1 {
+			var req verifC12Req
+			reply := map[string]string{"err": ""}
+			if err := json.Unmarshal(line, &req); err != nil {
+				reply["err"] = "bad request: " + err.Error()
+			} else {
+				opts := index.Options{IndexDir: req.Dir, RepositoryDescription: zoekt.Repository{
+					Name: req.RepoName, ID: req.RepoID, RawConfig: req.RawConfig,
+					Branches: []zoekt.RepositoryBranch{{Name: "HEAD", Version: req.Version}},
+				}}
+				opts.SetDefaults()
+				var old syscall.Rlimit
+				if req.FsizeLimit > 0 {
+					syscall.Getrlimit(syscall.RLIMIT_FSIZE, &old)
+					syscall.Setrlimit(syscall.RLIMIT_FSIZE, &syscall.Rlimit{Cur: req.FsizeLimit, Max: old.Max})
+				}
+				err := mergeMeta(&opts)
+				if req.FsizeLimit > 0 {
+					syscall.Setrlimit(syscall.RLIMIT_FSIZE, &old)
+				}
+				if err != nil {
+					reply["err"] = err.Error()
+				}
+			}
+			b, _ := json.Marshal(reply)
+			out.Write(b)
+			out.WriteByte('\n')
+			out.Flush()
+		}
+		if rerr != nil {
+			break
+		}
+	}
+	os.Exit(0)
+}
